@@ -2,6 +2,7 @@ package processor
 
 import (
 	"fmt"
+	"math"
 	"strings"
 	"time"
 
@@ -288,6 +289,11 @@ func dumpCdrFile(ueid string, records []*cdrType.CHFRecord) error {
 		cdrBytes, err := asn.BerMarshalWithParams(&record, "explicit,choice")
 		if err != nil {
 			logger.ChargingdataPostLog.Errorln(err)
+			return err
+		}
+		// the CDR length field of TS 32.297 has 16 bits: a longer record cannot be written
+		if len(cdrBytes) > math.MaxUint16 {
+			return fmt.Errorf("CDR of %d octets exceeds the %d octets a CDR file record can hold", len(cdrBytes), math.MaxUint16)
 		}
 
 		var cdrHdr cdrFile.CdrHeader
